@@ -1300,7 +1300,7 @@ def run_build_stream(ctx, dirs, per_dir, all_flags=False):
             base = dict(ctx.rng.choice([c for c in cfgs if c["state"] in ("none", "cold")]))
             base["flag"] = flag
             if flag == "name=md5-dos2unix":
-                base["state"] = "none"
+                base["state"] = ctx.rng.choice(["none", "cold"])  # cold: a real State attached to the store
             if flag == "ignore":
                 base["ignored"] = sorted(ctx.rng.sample(sorted(files), max(1, len(files) // 3)))
             chosen.append(base)
@@ -1515,13 +1515,16 @@ def store_routes(ctx, files, empty_dirs=()):
         from dvc_data.hashfile.checkout import checkout
         from dvc_data.hashfile.state import State
 
-        st = State(root_dir=work, tmp_dir=os.path.join(work, "state"))
+        # names that are not valid UTF-8 (lone surrogates after os.fsdecode) are refused, loudly, by the SQLite
+        # State (recorded in undecodable_name_observation): those directories go through the StateNoop routes
+        utf8_ok = all(is_scalar_text(r) for r in files)
+        st = State(root_dir=work, tmp_dir=os.path.join(work, "state")) if utf8_ok else None
         try:
             for link in ("copy", "hardlink", "symlink"):
-                odb_l = impl.local_odb(os.path.join(work, "cache"), type=[link], state=st)
+                odb_l = impl.local_odb(os.path.join(work, "cache"), type=[link], **({"state": st} if st else {}))
                 out = os.path.join(work, "out-" + link)
                 try:
-                    checkout(out, localfs, hload(odb_l, obj.hash_info), odb_l, state=st)
+                    checkout(out, localfs, hload(odb_l, obj.hash_info), odb_l, **({"state": st} if st else {}))
                     if not os.path.isdir(out):
                         if digests:
                             problems.append(("C03:checkout-rebuild", f"checkout ({link}) of {obj.oid} created no directory"))
@@ -1530,13 +1533,14 @@ def store_routes(ctx, files, empty_dirs=()):
                 except Exception as exc:  # noqa: BLE001
                     problems.append(("C03:checkout-rebuild", f"checkout ({link}) of {obj.oid} and re-build raised {exc!r}"))
                     continue
-                DIM[f"routes:checkout-{link}-then-rebuild(State-shared-by-the-three-stores)"] += 1
+                DIM[f"routes:checkout-{link}-then-rebuild" + ("(State-shared-by-the-three-stores)" if st else "(no State)")] += 1
                 if again.oid != canon(()):
                     problems.append(("C03:checkout-rebuild",
                                      f"the directory checked out from {obj.oid} with link type {link} re-builds to {again.oid}; "
                                      f"canonical identifier {canon(())}"))
         finally:
-            st.close()
+            if st is not None:
+                st.close()
 
         # ---- (2) data index: save, save again, build_tree for every prefix
         dirs = {()}
@@ -1581,6 +1585,8 @@ def run_routes_stream(ctx, specs):
         nested = any("/" in r for r in files) or bool(empty_dirs)
         ctx.case(case, nontrivial=nested or not files)
         ctx.count("routes:" + ("empty-listing" if not files else "nested" if nested else "flat"))
+        if not all(is_scalar_text(r) for r in files):
+            DIM["routes:file-name-not-valid-UTF-8(surrogate-escaped)-through-store-and-index"] += 1
         DIM["routes:" + ("empty-directory" if not files and not empty_dirs else "only-empty-sub-directories" if not files
                          else "nested" if nested else "flat")] += 1
         DIM["routes:store-reload+index-save-twice+build_tree-per-prefix"] += 1
@@ -1599,6 +1605,87 @@ def run_routes_stream(ctx, specs):
                     except Exception:  # noqa: BLE001, S112
                         continue
             ctx.oracle_fail(sig, what, {"kind": "routes", "files": small, "empty_dirs": list(empty_dirs)})
+
+
+def external_name_state_modes(ctx, files):
+    """build() of a directory under a non-md5 hash name goes through _build_external_tree_info, which re-hashes the
+    stored listing THROUGH odb.state.  The identifier must not depend on whether the store has no State, a cold one,
+    a warm one, or is built a second time; for the md5 family (md5-dos2unix on CR-LF-free contents) it must be the
+    canonical identifier; the returned object must load from the store."""
+    from dvc_objects.fs.local import localfs
+
+    from dvc_data.hashfile.build import build as hbuild
+    from dvc_data.hashfile.state import State
+    from dvc_data.hashfile.tree import Tree
+
+    work = ctx.fresh("extname")
+    problems = []
+    try:
+        src = os.path.join(work, "src")
+        impl.mk_tree(src, {r: _content(c) for r, c in files.items()})
+        canonical = impl.dir_oid([(r, impl.md5hex(_content(c))) for r, c in files.items()])
+        crlf_free = not any(b"\r\n" in _content(c) for c in files.values())
+        for alg in ("md5-dos2unix", "sha256"):
+            ids = {}
+            st = State(root_dir=work, tmp_dir=os.path.join(work, "state-" + alg))
+            try:
+                stores = [("no State", impl.local_odb(os.path.join(work, f"cache-{alg}-noop"))),
+                          ("cold State", impl.local_odb(os.path.join(work, f"cache-{alg}-st"), state=st)),
+                          ("warm State (second build into the same store)", None),
+                          ("a second store sharing the State", impl.local_odb(os.path.join(work, f"cache-{alg}-st2"), state=st))]
+                prev = None
+                for label, odb in stores:
+                    odb = odb or prev
+                    prev = odb
+                    try:
+                        _, _, obj = hbuild(odb, src, localfs, alg)
+                        ids[label] = f"{obj.hash_info.name}:{obj.hash_info.value}"
+                        loaded = Tree.load(odb, obj.hash_info)
+                        if len(loaded) != len(files):
+                            problems.append(("C03:external-name-state-dependent",
+                                             f"build(name={alg!r}) with {label}: the returned {obj.hash_info.value} loads "
+                                             f"{len(loaded)} entries, the directory has {len(files)}"))
+                    except Exception as exc:  # noqa: BLE001
+                        ids[label] = f"raised {type(exc).__name__}: {str(exc)[:100]}"
+                DIM[f"build:name={alg}-into-stores-with-no/cold/warm/shared-State"] += 1
+            finally:
+                st.close()
+            if len(set(ids.values())) != 1 or any(v.startswith("raised") for v in ids.values()):
+                problems.append(("C03:external-name-state-dependent",
+                                 f"build(name={alg!r}) of the same directory gives different identifiers depending on the "
+                                 f"hash-state cache of the store: {ids}"))
+            elif alg == "md5-dos2unix" and crlf_free and {v.split(":", 1)[1] for v in ids.values()} != {canonical}:
+                problems.append(("C03:external-name-state-dependent",
+                                 f"build(name='md5-dos2unix') gives {ids}, the canonical identifier is {canonical}"))
+    finally:
+        impl.rm_rf(work)
+    return problems
+
+
+def run_external_name_stream(ctx, dirs):
+    for files in dirs:
+        case = {"kind": "external-name", "files": files}
+        try:
+            problems = external_name_state_modes(ctx, files)
+        except Exception as exc:  # noqa: BLE001
+            problems = [(f"C03:external-name-exception:{type(exc).__name__}", f"raised {exc!r}")]
+        ctx.case(case, nontrivial=bool(files))
+        ctx.count("external-name:dirs")
+        for sig in dict.fromkeys(s for s, _ in problems):
+            small = dict(files)
+            changed = True
+            while changed and len(small) > 1:
+                changed = False
+                for rel in sorted(small):
+                    cand = {k: v for k, v in small.items() if k != rel}
+                    try:
+                        if any(s == sig for s, _ in external_name_state_modes(ctx, cand)):
+                            small, changed = cand, True
+                            break
+                    except Exception:  # noqa: BLE001, S112
+                        continue
+            what = next(w for s, w in (external_name_state_modes(ctx, small) or problems) if s == sig)
+            ctx.oracle_fail(sig, what, {"kind": "external-name", "files": small})
 
 
 def undecodable_name_observation(ctx):
@@ -1814,11 +1901,16 @@ def run(ctx):
                    ({"a": "610a", "z": "", "sub/b": "620a", "sub/c": "630a", "sub/deep/d": "640a"}, ()),
                    ({"d/x": "01", "d.e/y": "02", "top": "03"}, ("d/empty",))]
     route_specs += [(c["files"], tuple(c.get("empty_dirs", ()))) for c in corpus if c.get("kind") == "routes"]
+    # file names that are not valid UTF-8 (legal on POSIX): judged through the StateNoop routes
+    route_specs += [({"d/" + os.fsdecode(b"caf\xe9.txt"): "78", "ok.txt": "79", os.fsdecode(b"\xff\xfe.bin"): "7a"}, ()),
+                    ({os.fsdecode(b"caf\xe9.txt"): "7b"}, ())]
     route_specs += [(f, ()) for f in audit_dirs + dirs[4:]]
     run_routes_stream(ctx, route_specs)
 
     undecodable_name_observation(ctx)
     foreign_algorithm_observation(ctx)
+    run_external_name_stream(ctx, [{"a": "610a", "s/b": "620a", "s/t/c": ""}, {"only": "01"}, {}]
+                             + [f for f in dirs[4:] if f and not any(b"\r\n" in _content(c) for c in f.values())][:ctx.n(2, 8)])
 
     md5_items, json_items = run_base_stream(ctx, ctx.n(24, 150), ctx.n(40, 400))
 
@@ -1843,6 +1935,9 @@ def replay_case(ctx, case):
         return {"problems": problems, "violates": bool(problems)}
     if kind == "history":
         problems = run_history(case["ops"])[2]
+        return {"problems": problems, "violates": bool(problems)}
+    if kind == "external-name":
+        problems = external_name_state_modes(ctx, case["files"])
         return {"problems": problems, "violates": bool(problems)}
     if kind == "routes":
         problems = store_routes(ctx, case["files"], tuple(case.get("empty_dirs", ())))
